@@ -393,13 +393,14 @@ Proof. intros a b c H1 H2 tid H. apply H2, H1, H. Qed.
 Lemma bv_lmono_archs : forall s s', w_archs s' = w_archs s -> bv_lmono s s'.
 Proof. intros s s' E tid H. unfold v_listed in *. rewrite E. exact H. Qed.
 
-Lemma bv_foca_mono : forall m s aid s1, find_or_create_arch m s = Ok aid s1 -> bv_lmono s s1.
+Lemma bv_foca_mono : forall m s aid s1, St s -> (forall j, mk_get m j = true -> j < length (w_reg s)) ->
+  find_or_create_arch m s = Ok aid s1 -> bv_lmono s s1.
 Proof.
-  intros m s aid s1 H. unfold find_or_create_arch, bind, get in H.
-  destruct (find_arch s m) as [i|].
-  - unfold ret in H. inversion H; subst. apply bv_lmono_refl.
-  - unfold create_archetype, bind, get, put, ret in H. inversion H as [[Ha Hs]]. clear H.
-    intros tid Hin. unfold v_listed in *. cbn. rewrite flat_map_app. apply in_or_app. left. exact Hin.
+  intros m s aid s1 HS Hm H.
+  destruct (find_or_create_arch_shape s m HS Hm) as (aid' & s1' & E & Sh).
+  rewrite H in E. injection E as <- <-.
+  destruct Sh as [[Es _]|(_ & _ & a & t & EA & _)]; [rewrite Es; apply bv_lmono_refl|].
+  intros tid Hin. unfold v_listed in *. rewrite EA, flat_map_app. apply in_or_app. left. exact Hin.
 Qed.
 
 (** create_table for an archetype without tables (copy of [sa_create_table_nil], exposing the
@@ -479,7 +480,7 @@ Proof.
   destruct (find_or_create_arch_spec s m HS Hm) as (aid' & s1' & E1' & HS1 & _ & _ & _ & _ & a & Ha & _).
   rewrite E1 in E1'. inversion E1'; subst aid' s1'.
   destruct (bv_goct_listed s1 aid a tid s2 HS1 Ha E4) as (G1 & G2).
-  split; [exact G1|]. eapply bv_lmono_trans; [exact (bv_foca_mono m s aid s1 E1)|exact G2].
+  split; [exact G1|]. eapply bv_lmono_trans; [exact (bv_foca_mono m s aid s1 HS Hm E1)|exact G2].
 Qed.
 
 Lemma bv_foct_listed : forall s old ot add rem m0 tid aid m rr s',
